@@ -296,6 +296,10 @@ def run_case(stepper, case):
             'pulls_at': run.pulls_at, 'end': run.end, 'tail': run.log[run.n_end:-1],
             'tokens': [(e['e'], e.get('op', ''), e.get('r', -1)) for e in evs
                        if e['e'] in ('Arrive', 'AppCall', 'AppRet', 'Cancel', 'SrvRecvFail')]}
+    # break the reference cycles (run <-> tasks <-> coroutine frames) so that finished tasks are freed at once:
+    # asyncio.all_tasks() walks a WeakSet that otherwise grows until the next full garbage collection
+    run.lane_tasks = []
+    run.app_task = run.optask = run.ctl_task = run.gates = run.final_gate = run.server = None
     return trace, info
 
 
@@ -492,6 +496,9 @@ def run(ctx):
         key = digest([b['mq'], b['all'], [(e['e'], e['op']) for e in b['h'] if e['e'] != 'R']])
         scripts.setdefault(key, []).append(b)
     keys = sorted(scripts)
+    import gc
+    gc.collect()
+    gc.freeze()        # the loaded behaviours are long-lived: keep them out of the collector's way while replaying
     judge_every = max(1, len(keys) // ctx.pick(1500, 12000))
     held_more = 0
     TOK = {'D': 'Arrive', 'C': 'Cancel', 'F': 'SrvRecvFail', 'A': 'AppCall', 'R': 'AppRet'}
@@ -545,6 +552,8 @@ def run(ctx):
     ctx.extra['A1_behaviours_with_capacity_plus_one_pulls'] = held_more
     ctx.progress('leg A1: %d behaviours / %d scripts, %d replays compared' % (len(behaviours), len(keys), counts['A1']))
     del behaviours, scripts
+    gc.unfreeze()
+    gc.collect()
 
     # ---- leg A2: simulated fine-grained behaviours -> racy stimulus scripts -------------------------
     rs = ctx.tlc('MC_WsBuffer', 'MC_WsBufferA2.cfg', simulate={'num': ctx.pick(500, 7000)}, depth=30,
